@@ -356,6 +356,22 @@ func (prog Progress) focusedTransform(n datamodel.Node, na datamodel.NodeAssembl
 			}
 			if ti == i {
 				prog.Path = prog.Path.AppendSegment(seg)
+				if p2.Len() == 0 {
+					// This element is the target itself. Ask for its replacement before touching the
+					// assembler, because a nil replacement means delete: then no value is assembled at all.
+					n2, err := fn(prog, v)
+					if err != nil {
+						return err
+					}
+					replaced = true
+					if n2 == nil {
+						continue
+					}
+					if err := la.AssembleValue().AssignNode(n2); err != nil {
+						return err
+					}
+					continue
+				}
 				if err := prog.focusedTransform(v, la.AssembleValue(), p2, fn, createParents); err != nil {
 					return err
 				}
